@@ -20,7 +20,7 @@ concrete_arrays()
 
 STORAGES = ["ram", "file-mmap", "file-nommap"]
 FRONTENDS = ["segment", "segment-loose", "buffered-1", "buffered-2", "buffered-4", "async-free", "async-contended",
-             "mp-2procs", "mp-2procs-batch1", "mp-3procs-multisegment"]
+             "mp-2procs", "mp-2procs-batch1", "mp-3procs-multisegment", "buffered-1-deletelast", "buffered-2-deletelast", "buffered-3-deletelast"]
 NFE = len(FRONTENDS)
 
 
@@ -48,6 +48,10 @@ def run_config(skind, fe, cutmask, to_ram):
             apply_op(w, op)
         w.commit()
         rest = OPS[FORCED + 1:]
+        if name.endswith("deletelast"):
+            # the (independent) deletions are issued last: depending on the limit the buffer is empty when they arrive,
+            # so close() has deletions but no buffered documents to commit
+            rest = [op for op in rest if op[0] != "delete"] + [op for op in rest if op[0] == "delete"]
         if name.startswith("buffered"):
             limit = int(name.split("-")[1])
             bw = writing.BufferedWriter(ix, period=None, limit=limit)
@@ -117,6 +121,14 @@ def run_config(skind, fe, cutmask, to_ram):
         else:
             ix = st.open_index()
         got = full_dump(ix, with_stats=False)
+        if name.startswith("buffered"):
+            # BufferedWriter has no group API: the members are added one by one and may be flushed into different
+            # segments, so adjacency of the second group (and the nested query that relies on it) is not promised
+            got = dict(got)
+            base = dict(base)
+            for key in ("group 2 adjacent", "nested parent"):
+                got.pop(key, None)
+                base.pop(key, None)
         d = diff(got, base)
         if d:
             return "%s on %s%s cuts=%s: %s" % (name, skind, " copied to RAM" if to_ram else "", bin(cutmask), d)
